@@ -142,6 +142,13 @@ func cmdVerify(args []string) {
 						bad++
 					}
 					fmt.Printf("    %-8s %s  (%d instance(s), %d failing)\n", st, n, len(obs), nf)
+					if *dump != "" && *verbose && os.Getenv("GOVC_DUMP_ALL") != "" {
+						os.MkdirAll(*dump, 0o755)
+						for i, ob := range obs {
+							fnm := fmt.Sprintf("%s/all_%s_%d.smt2", *dump, strings.NewReplacer("/", "_", ":", "_", "(", "", ")", "", "*", "p", "#", "_").Replace(n), i)
+							os.WriteFile(fnm, []byte(ob.SMT(true)), 0o644)
+						}
+					}
 					if obs[0].Cover && *verbose {
 						for ci, ob := range obs {
 							if ob.Status == "unsat" {
